@@ -15,7 +15,7 @@ Unit description: units/<u>/unit.vs, a Verus source file with directive lines st
   //@ rewrite <RULE> [args]                     enable a rewrite rule for this function
   //@ at <anchor>                               following plain lines are inserted at the anchor
        anchors: sig | entry | tail | end | loop K spec | loop K body-start | loop K body-end |
-                before-loop K | after-loop K | return J | closure K spec
+                before-loop K | after-loop K | return J | closure K spec | after-semi K
 Everything that is not a directive is copied through unchanged (spec functions, lemmas, stubs).
 """
 import os
@@ -286,6 +286,21 @@ class FnInfo:
                 return self.off(self.breaks[int(a[1])])
             if a[0] == 'closure' and a[2] == 'spec':
                 return self.end_off(self.closures[int(a[1])]['bar2'])
+            if a[0] == 'after-semi':
+                # after the K-th `;` at the top level of the function body (0-based): between two statements
+                toks = self.toks
+                j = it.body_open + 1
+                n = -1
+                while j < it.body_close:
+                    t = toks[j]
+                    if t.kind == 'punct' and t.text in ('(', '[', '{'):
+                        j = match_close(toks, j)
+                    elif is_p(t, ';'):
+                        n += 1
+                        if n == int(a[1]):
+                            return self.end_off(j)
+                    j += 1
+                raise IndexError
         except IndexError:
             raise LostAnchor(f'fn {it.name}: anchor `{anchor}` not found (loops={len(self.loops)}, returns={len(self.returns)}, closures={len(self.closures)})')
         raise LostAnchor(f'fn {it.name}: unknown anchor `{anchor}`')
@@ -1262,8 +1277,9 @@ def emit_fn(gen, sf, item, spec, canary=False, qual='', in_trait=False):
         line=line_of(src, toks[item.kw].start) + sf.line_base, hash=hashlib.sha256(body.encode()).hexdigest()[:16],
         gen_start=start_line, gen_end=end_line, canary=canary,
         contract=bool(spec.inserts), loops=len(fi.loops), bodiless=(item.body_open is None),
-        shape=dict(loops=len(fi.loops), returns=len(fi.returns), breaks=len(fi.breaks), closures=len(fi.closures)),
-        ordinal=any(a.split()[0] in ('loop', 'before-loop', 'after-loop', 'return', 'break', 'closure', 'mapcollect') for a, _, _ in spec.inserts)
+        shape=dict(loops=len(fi.loops), returns=len(fi.returns), breaks=len(fi.breaks), closures=len(fi.closures),
+                   **({'semis': _top_semis(toks, item)} if any(a.split()[0] == 'after-semi' for a, _, _ in spec.inserts) else {})),
+        ordinal=any(a.split()[0] in ('loop', 'before-loop', 'after-loop', 'return', 'break', 'closure', 'mapcollect', 'after-semi') for a, _, _ in spec.inserts)
                 or any(r in ('R-FOR', 'R-ENUM', 'R-ITER', 'R-HOIST', 'R-INTOVEC', 'R-CUTTAIL', 'R-CLOSPAT', 'R-MAPCOLLECT') for r, _ in spec.rewrites)))
     if not canary:
         for e in edits:
@@ -1371,6 +1387,22 @@ def emit_item(gen, sf, item, only=None, constcall=False, dropauto=False):
     gen.out.nl()
     for e in edits:
         gen.dropped[e[3]] = gen.dropped.get(e[3], 0) + 1
+
+
+def _top_semis(toks, item):
+    """number of `;` at the top level of a function body (shape component for `after-semi K` anchors)"""
+    if item.body_open is None:
+        return 0
+    j = item.body_open + 1
+    n = 0
+    while j < item.body_close:
+        t = toks[j]
+        if t.kind == 'punct' and t.text in ('(', '[', '{'):
+            j = match_close(toks, j)
+        elif is_p(t, ';'):
+            n += 1
+        j += 1
+    return n
 
 
 def check_shapes(gen, unit_path, record=False):
